@@ -270,6 +270,79 @@ def run_sampler(ctx, case):
     ctx.sig([cap <= nb, case["quiet_drain"], na > 0, len(outcomes)], nontrivial=len(outcomes) >= 3)
 
 
+# ------------------------------------------------------------------------------------------------
+# sizes: far more samples than any constant in sight, drained the way a Worker does
+# ------------------------------------------------------------------------------------------------
+def gen_sampler_sizes(ctx):
+    import math
+
+    rng = ctx.rng
+    for _ in range(ctx.budget):
+        cap = rng.choice([16384, 1 << 20, 1 << 20, 1 << 20, 1000, 40000])  # Sampler's default / reporting `sample.queue.size` default / small
+        total = int(round(math.exp(rng.uniform(math.log(200), math.log(140000)))))
+        if rng.random() < 0.25:
+            total = rng.choice([16383, 16384, 16385, 32767, 32768, 32769, 49153, 65536, 65537, 100000, 131072])
+        # periodic drains (worker wake-ups) at random points, possibly none; the join point drains once and drops the sampler
+        n_drains = rng.choice([0, 0, 1, 2, 3])
+        cuts = sorted(rng.randrange(0, total + 1) for _ in range(n_drains))
+        events, prev = [], 0
+        for c in cuts:
+            events += [c - prev, "drain"]
+            prev = c
+        events += [total - prev, "drain"]
+        yield {"cap": cap, "events": events}
+
+
+def run_sampler_sizes(ctx, case):
+    """`Sampler.add` n times / the REAL `Worker.send_samples` (wake-up drain) / at the join point `send_samples` once more and the
+    sampler is dropped (Worker.drive): every added sample reaches the driver exactly once or is a reported queue-full drop"""
+    from esrally import metrics
+    from esrally.driver import driver
+
+    class Task:
+        class operation:
+            name = "op"
+
+    sampler = driver.Sampler(start_timestamp=0.0, buffer_size=case["cap"])
+    warns = []
+
+    class Log:
+        def warning(self, *a, **k):
+            warns.append(1)
+
+    sampler.logger = Log()
+    shipped = []
+    w = object.__new__(driver.Worker)  # the real class: send_samples with whatever helpers it uses
+    w.sampler = sampler
+    w.worker_id = 0
+    w.driver_actor = "driver"
+    w.send = lambda target, msg: shipped.append([s.total_ops for s in msg.samples])
+    nid = 0
+    batches = []
+    for ev in case["events"]:
+        if ev == "drain":
+            before = len(shipped)
+            w.send_samples()
+            batches.append(len(shipped[-1]) if len(shipped) > before else 0)
+        else:
+            for _ in range(ev):
+                sampler.add(Task, 0, metrics.SampleType.Normal, None, 0.0, 0.0, 0.0, 0.0, 0.0, None, nid, "ops", 0.0, None)
+                nid += 1
+    # join point reached: the sampler is dropped (`self.sampler = None`) — whatever is still inside is gone
+    w.sampler = None
+    m = ctx.model("exec", "sampler_bulk", case)
+    impl = {"batches": batches, "dropped": len(warns)}
+    if {"batches": m["r"]["batches"], "dropped": m["r"]["dropped"]} != impl:
+        ctx.diff("sampler batch sizes", {"batches": m["r"]["batches"], "dropped": m["r"]["dropped"]}, impl)
+    got = [x for b in shipped for x in b]
+    if len(set(got)) != len(got) or len(got) + len(warns) != nid:
+        ctx.fail("samples-not-shipped", f"{nid} requests sampled, {len(got)} samples reached the driver in batches {batches}, {len(warns)} reported drops",
+                 nid - len(warns), len(got))
+    ctx.sig([m.get("tags"), case["cap"], len(case["events"]) // 2], nontrivial=nid > 16384)
+    ctx.count("adds>16384" if nid > 16384 else "adds<=16384")
+    ctx.count("adds>32768" if nid > 32768 else "adds<=32768")
+
+
 def gen_exec_preempt(ctx):
     rng = ctx.rng
     for _ in range(ctx.budget):
@@ -322,4 +395,5 @@ STREAMS = [
     Stream("exec_concurrent_streams", gen_streams, run, quick=3000, thorough=120000, shards=16),
     Stream("sampler_preempt", gen_sampler, run_sampler, quick=320, thorough=8000, shards=16),
     Stream("exec_preempt_drain", gen_exec_preempt, run_exec_preempt, quick=64, thorough=1600, shards=16),
+    Stream("sampler_sizes_worker_drain", gen_sampler_sizes, run_sampler_sizes, quick=96, thorough=2400, shards=16),
 ]
